@@ -6,7 +6,7 @@ from .. import spec
 from ..gen import G, Qty
 from ..common import run_apps, app, out_of, sig, base_files
 
-THEOREMS = ['separator_is_one_byte', 'balance_amounts', 'balance_rows', 'collapse_only_joins', 'collapse_last_joins', 'top_level_amounts_conserved', 'single_element_total', 'collapse_is_plain_of_joined', 'collapse_last_is_plain_of_joined', 'display_modes_same_leaves', 'collapse_preserves_leaves']
+THEOREMS = ['separator_is_one_byte', 'balance_amounts', 'balance_rows', 'collapse_only_joins', 'collapse_last_joins', 'top_level_amounts_conserved', 'single_element_total', 'collapse_is_plain_of_joined', 'collapse_last_is_plain_of_joined', 'display_modes_same_leaves', 'collapse_preserves_leaves', 'balance_rows_follow_source', 'balance_single_footer_follows_source']
 LEVEL = 'proof'
 RULE = ('exhaustive: every set of <= 4 (thorough: 5) paths of depth <= 3 over a two-letter alphabet, in the three display modes; random logs and '
         'books beyond, with and without --single-element; non-trivial = a fork below a single-child chain or two foods sharing a prefix; '
